@@ -203,6 +203,9 @@ pub enum AppOp {
     Subscribe { n: u8, pid: Option<u16> },
     Unsubscribe { n: u8, pid: Option<u16> },
     Ready,
+    /// create an awaiting future and drop it without ever polling it (the waiter it registered at
+    /// creation stays in the queue): 0 ready(), 1 QoS1 publish, 2 QoS2 publish
+    Unpolled { what: u8 },
     /// streamed QoS1 publish: declared size, chunk sizes actually sent (may under/over-deliver), drop stream at end
     StreamQ1 { size: u32, chunks: Vec<u32>, pid: Option<u16> },
     StreamQ0 { size: u32, chunks: Vec<u32> },
